@@ -14,7 +14,8 @@ REPO = frontend.REPO
 PY_REAL = "/venv/bin/python"
 CACHE = os.path.join(VERIF, ".cache", "smt")
 
-SUPPORT_KINDS = {"PRE", "INV0", "INV+", "SAFE", "FRAME", "KIND", "LEMMA-PREMISE", "CANARY", "DECR"}
+SUPPORT_KINDS = {"PRE", "INV0", "INV+", "SAFE", "FRAME", "KIND", "LEMMA-PREMISE", "CANARY", "PROBE", "DECR"}
+GUARD_KINDS = ("CANARY", "PROBE")
 
 GENERAL_ASSUMPTIONS = [
     "CPython semantics as encoded by the executor: attribute protocol (instance dict/slots, properties as data "
@@ -73,7 +74,7 @@ def discharge_cached(obls, tier, seed, use_cache=True):
         ob.key = cache_key(ob.text)
         path = os.path.join(CACHE, ob.key[:2], ob.key)
         ob.cached = False
-        if use_cache and ob.kind != "CANARY" and os.path.exists(path):
+        if use_cache and ob.kind not in GUARD_KINDS and os.path.exists(path):
             try:
                 with open(path) as f:
                     d = json.load(f)
@@ -85,7 +86,7 @@ def discharge_cached(obls, tier, seed, use_cache=True):
     rounds = solve.ROUNDS_THOROUGH if tier == "thorough" else solve.ROUNDS_QUICK
     solve.discharge(todo, rounds=rounds, seed=seed, both=(tier == "thorough"))
     for ob in todo:
-        if ob.result == "unsat" and ob.kind != "CANARY":
+        if ob.result == "unsat" and ob.kind not in GUARD_KINDS:
             d = os.path.join(CACHE, ob.key[:2])
             os.makedirs(d, exist_ok=True)
             with open(os.path.join(d, ob.key), "w") as f:
@@ -149,8 +150,8 @@ def write_replay(res, name, payload):
 
 
 def evidence(res, coverage_extra=None):
-    obls = [o for o in res.obligations if o.kind != "CANARY"]
-    can = [o for o in res.obligations if o.kind == "CANARY"]
+    obls = [o for o in res.obligations if o.kind not in GUARD_KINDS]
+    can = [o for o in res.obligations if o.kind in GUARD_KINDS]
     discharged = [o for o in obls if o.result == "unsat"]
     by_backend = {}
     for o in discharged:
@@ -207,11 +208,25 @@ def evidence(res, coverage_extra=None):
     return doc
 
 
+def guard_faults(res):
+    """vacuity / solver-soundness guards: a refuted input probe, or an outcome all of whose exit paths are refutable, means the
+    hypotheses are inconsistent (or a solver is wrong): checker fault - unless the run already has a violation to report"""
+    bad_probe = [o.name for o in res.obligations if o.kind == "PROBE" and o.result == "unsat"]
+    per, dead = canary_verdict(res.obligations)
+    if bad_probe:
+        res.faults.append("input probe refuted (inconsistent hypotheses or unsound solver answer): %s" % bad_probe[:3])
+    if dead and not res.violations:
+        res.faults.append("outcome with only refutable exit paths: %s" % sorted("%s:%s" % k for k in dead)[:3])
+
+
 def finish(res):
+    guard_faults(res)
+    if res.violations:
+        res.faults = [f for f in res.faults if not f.startswith("outcome with only")]
     evidence(res)
     for line in res.known_lines:
         print("KNOWN-FINDING: property=%s %s" % (res.pid, line))
-    if res.faults:
+    if res.faults and not res.violations:
         for f in res.faults:
             print("CHECKER-FAULT: %s" % f)
         print("%s: checker fault (no verdict)" % res.pid)
@@ -221,7 +236,7 @@ def finish(res):
             rel = os.path.relpath(v["replay"], VERIF)
             print("VIOLATION property=%s replay=%s%s" % (res.pid, rel, "" if v.get("input_found") else " no-failing-input-found"))
         return 1
-    obls = [o for o in res.obligations if o.kind != "CANARY"]
+    obls = [o for o in res.obligations if o.kind not in GUARD_KINDS]
     print("%s: held - %d obligations discharged from %d functions (%s tier, %.1fs)"
           % (res.pid, len(obls), len(res.functions), res.tier, time.time() - res.t0))
     return 0
